@@ -136,6 +136,28 @@ def check(ctx):
                         '`%s` is a set (%s): iterating it without sorted() makes the result depend on the interpreter\'s hash seed (str hashes are randomised per '
                         'process); the loop body has effects other than set updates and diagnostics' % (P.src(it), attrs.get(what.lstrip('.'), what)))
 
+    # the reviewed exception above rests on typedef references being flagged: Position(is_typedef=...) must hold for typedef symbols
+    am_ = py.mod('ast')
+    AS = gsa.summarise(ctx, 'ast', 'Node.add_symbol_reference', inline_only=())
+    pos = [e for e in gsa.find(AS, 'call', r'^Position$')]
+    if not pos:
+        raise AnalysisError('Node.add_symbol_reference: Position(...) construction not found')
+    symp = AS.P(1)
+    for e in pos:
+        tdef = (getattr(e, 'kwargs', None) or {}).get('is_typedef') or (e.args[2] if len(e.args) > 2 else None)
+        names = set()
+        if tdef is not None:
+            try:
+                tn = ast.parse(tdef, mode='eval').body
+                if any(isinstance(x, ast.Attribute) and x.attr == 'type' and gsa._unparse(x.value) == symp for x in ast.walk(tn)):
+                    names = set(x.id for x in ast.walk(tn) if isinstance(x, ast.Name))
+            except SyntaxError:
+                pass
+        kinds = set(am_.imports.get(nm_, (None, None)) for nm_ in names)
+        r1.check(('sourcescanner', 'CSYMBOL_TYPE_TYPEDEF') in kinds, 'typedef symbol references are flagged is_typedef', am_.rel, e.line,
+                 'Position(is_typedef=%s): %s.type is a CSYMBOL_TYPE_* value and is not compared with CSYMBOL_TYPE_TYPEDEF, so typedef references count as definitions; '
+                 'get_main_position() then returns whichever of several positions the set yields first and the output depends on the hash seed' % (tdef, symp), detail=tdef)
+
     # ------------------------------------------------------------------ R2 sorted emission
     r2 = ctx.rule('R2', 'every emitting loop of GIRWriter iterates sorted(...) or a reviewed order-carrying list; namespace order is (alias first, node)', floor=25)
     w = wattr.WriterModel(py)
@@ -244,6 +266,20 @@ def check(ctx):
     r4.check(not rounding and not subs and len(mt_attrs) == 2 and len(set(mt_attrs)) == 1, 'cache freshness compared at full mtime resolution', 'giscanner/cachestore.py', cv.lineno,
              'cache freshness is decided on rounded modification times (%s): a dependency GIR rewritten within the same second as its cache entry keeps being served from '
              'the cache, so the output depends on whether the cache was warm' % (rounding + subs), detail=mt_attrs)
+    # a second typedef of an already promoted struct tag shares the primary record's field list (the same list object): the struct body may
+    # be parsed after both typedefs, and its fields are appended to the primary's list
+    TC = gsa.summarise(ctx, 'transformer', 'Transformer._create_typedef_compound', inline_only=())
+    fs = [e for e in gsa.find(TC, 'store', r'\.fields$')]
+    r4.check(bool(fs) and all(re.match(r'^self\._tag_ns\[.*\]\.fields$', e.value) for e in fs), 'secondary typedef records alias the primary field list', tm.rel, fs[0].line if fs else TC.func.lineno,
+             'a second typedef of a struct tag gets %s as its fields: a copy taken before the struct body is seen stays empty, so `typedef struct _A A; typedef struct _A B; struct _A {...}` '
+             'and the same declarations with the body first give different GIR' % [e.value[:60] for e in fs], detail=[e.value[:80] for e in fs])
+    PFD = gsa.summarise(ctx, 'transformer', 'Transformer._parse_fields', inline_only=())
+    rebinding = [e for e in gsa.find(PFD, 'store', r'^%s\.fields$' % re.escape(PFD.P(2)))]
+    r4.check(not rebinding, 'parsed fields are added to the existing list in place', tm.rel, rebinding[0].line if rebinding else PFD.func.lineno,
+             '_parse_fields rebinds %s.fields: records that share the list with an earlier typedef no longer see the fields' % PFD.P(2))
+
+    from . import c18
+    c18.cache_key_rule(ctx, r4)
 
 
 def depends_on(cond, pattern):
